@@ -11,6 +11,7 @@
                        tagsrc / lvlsrc: which sources the printed level tag / name is equal to
      {"op":"GC", n}   {"op":"Register", c, g, ok}   {"op":"Switch", k, v, dbg, trc}
      {"op":"SwitchOff", dbg, trc}   {"op":"SetWidth", w}   {"op":"SetMinW", m}
+     {"op":"SetColors", c, fg, bg}   slog.SetLevelColors(concrete severity of c, colour of class fg, of class bg)
 
    The monitor consumes one line per step and maintains the model state ms of EncoderHist
    (same step operators).  Where a public getter exists the monitor ADOPTS its answer (logger
@@ -42,13 +43,15 @@ HFeats(rec) ==
     HNodeFeats(rec.attrs)
     \cup {"msg:" \o rec.msg[j] : j \in {x \in DOMAIN rec.msg : rec.msg[x] # "plain"}}
     \cup {"attrs:" \o f : f \in TreeFeatures(rec.attrs)}
+    \cup (IF rec.lc.set THEN {"colours:" \o rec.lc.fg \o "+" \o rec.lc.bg} ELSE {})
+    \cup {"member-key:" \o x[1] \o ":" \o x[2] : x \in MemberReserved(rec.attrs, 0)}
 
 Blank == [testing |-> FALSE, dbg |-> FALSE, trc |-> FALSE, width |-> 3, minw |-> 36,
-          reg |-> [c \in Customs |-> "none"], mode |-> InitMode, named |-> InitNamed]
+          reg |-> [c \in Customs |-> "none"], col |-> [v \in ColSevs |-> NoLC], mode |-> InitMode, named |-> InitNamed]
 
 StateAtReset(e) ==
     [testing |-> e.testing, dbg |-> e.dbg, trc |-> e.trc, width |-> e.width, minw |-> e.minw,
-     reg |-> [c \in Customs |-> "none"],
+     reg |-> [c \in Customs |-> "none"], col |-> [v \in ColSevs |-> NoLC],
      mode |-> [l \in Loggers |-> GetterMode(e.modes[l][1], e.modes[l][2])],
      named |-> [l \in Loggers |-> e.named[l]]]
 
@@ -60,6 +63,7 @@ After(s, e) ==
       [] e.op \in {"Switch", "SwitchOff"} -> [s EXCEPT !.dbg = e.dbg, !.trc = e.trc]
       [] e.op = "SetWidth"  -> IF e.w \in 1..5 THEN [s EXCEPT !.width = e.w] ELSE s
       [] e.op = "SetMinW"   -> IF e.m >= 16 THEN [s EXCEPT !.minw = e.m] ELSE s
+      [] e.op = "SetColors" -> IF e.c \in ColSevs THEN ColStep(s, e.c, e.fg, e.bg) ELSE s
       [] OTHER              -> s                      \* GC
 
 TInit == /\ i = 1 /\ ms = Blank /\ nbad = 0 /\ nskip = 0
